@@ -182,6 +182,13 @@ def gen_kernels():
         txt = ("(* GENERATED: harness/pytrans_str.py could not translate the current source: %s *)\n"
                "Definition translation_failed : True := untranslatable_source.\n" % str(ex).replace("*)", "* )"))
     _write_gen("GroKernelsGen.v", txt)
+    import pytrans_itp
+    try:
+        txt = pytrans_itp.generate(REPO)
+    except pytrans_itp.Unsupported as ex:
+        txt = ("(* GENERATED: harness/pytrans_itp.py could not translate the current source: %s *)\n"
+               "Definition translation_failed : True := untranslatable_source.\n" % str(ex).replace("*)", "* )"))
+    _write_gen("ItpGen.v", txt)
 
 
 def _write_gen(fname, txt):
